@@ -170,7 +170,7 @@ func (x *Exec) oblige(st *State, kind string, pos token.Pos, goal string, tag st
 	// assume it afterwards (assert-then-assume); obligations at the end of a
 	// path (postconditions, invariant preservation) need not be assumed
 	switch kind {
-	case "ensures", "inv-pres", "inv-init", "decreases":
+	case "ensures", "inv-pres", "inv-init", "decreases", "back-when", "exit-when":
 	default:
 		x.c.assume(implies(st.guard, goal))
 	}
@@ -443,6 +443,7 @@ func (x *Exec) pushEdge(from, to *ssa.BasicBlock, st *State, incoming map[*ssa.B
 		x.backEdge(li, st)
 		return
 	}
+	x.exitEdges(from, to, st)
 	in := incoming[to]
 	if in == nil {
 		in = &blockIn{}
@@ -774,12 +775,36 @@ func (x *Exec) backEdge(li *loopInfo, st *State) {
 		goal := x.evalClause(env, inv)
 		x.oblige(st, "inv-pres", pos, goal, x.clauseTag(inv, fmt.Sprintf("loop%d.inv%d", li.ord, i+1)), x.clauseProps(inv))
 	}
+	for i, bw := range lc.BackWhen {
+		env := x.loopEnv(li, st)
+		x.oblige(st, "back-when", pos, x.evalClause(env, bw), x.clauseTag(bw, fmt.Sprintf("loop%d.back%d", li.ord, i+1)), x.clauseProps(bw))
+	}
 	if lc.Decreases != nil {
 		env := x.loopEnv(li, st)
 		v := x.evalExprClause(env, lc.Decreases)
 		nv := x.c.toIdx(v.T, v.S)
 		ov := x.loopVar[li.header]
 		x.oblige(st, "decreases", pos, and(sx("<=", "0", ov), sx("<", nv, ov)), x.clauseTag(lc.Decreases, fmt.Sprintf("loop%d.decreases", li.ord)), x.clauseProps(lc.Decreases))
+	}
+}
+
+// exitEdges checks the exit-when clauses of every loop left by the edge from -> to.
+func (x *Exec) exitEdges(from, to *ssa.BasicBlock, st *State) {
+	for _, li := range x.loopList {
+		if !li.body[from] || li.body[to] {
+			continue
+		}
+		if !strings.HasSuffix(to.Comment, ".done") {
+			continue // not a normal loop exit (break / condition false) but a return from inside the loop
+		}
+		lc := x.loopContract(li)
+		if lc == nil {
+			continue
+		}
+		for i, ew := range lc.ExitWhen {
+			env := x.loopEnv(li, st)
+			x.oblige(st, "exit-when", x.loopPos(li), x.evalClause(env, ew), x.clauseTag(ew, fmt.Sprintf("loop%d.exit%d", li.ord, i+1)), x.clauseProps(ew))
+		}
 	}
 }
 
@@ -825,6 +850,7 @@ func (x *Exec) execTail(b *ssa.BasicBlock, from int, st *State) {
 		if s.guard == "false" {
 			return
 		}
+		x.exitEdges(f, to, s)
 		x.execTail(to, f.Index, s)
 	})
 }
